@@ -516,7 +516,9 @@ func (m *UDPMuxDefault) registerConnForAddress(conn *udpMuxedConn, addr netip.Ad
 	defer m.addressMapMu.Unlock()
 
 	existing, ok := m.addressMap[addr]
-	if ok {
+	if ok && existing != conn {
+		// (a conn registering an address it already owns, e.g. two concurrent first
+		// writes, must keep listing it: the list is what removal goes by)
 		existing.removeAddress(addr)
 	}
 	m.addressMap[addr] = conn
